@@ -47,6 +47,15 @@ def call_try_send(pipe, item):
     return lambda it, st: it.run_body(_method(it, SND, "try_send"), [st[1][pipe], item])
 
 
+def call_try_send_batch(pipe, items):
+    def f(it, st):
+        it.hooks["verif::weight_one"] = lambda it2, a, d, fn: 1
+        dq = Ref(Cell(Seq("vecdeque", list(items), "?"), "items"), ())
+        r = it.run_body(_method(it, SND, "try_send_batch"), [st[1][pipe], dq, FnItem("verif::weight_one")])
+        return ("batch", r, len(dq.load().f))
+    return f
+
+
 def call_pop():
     return lambda it, st: _poll_async(it, RPQ, "pop", [st[0]])
 
